@@ -194,4 +194,9 @@ def check(world, tier):
         e_.ob({47, 92} <= consts, "trim-both-separators", "leading '/' and '\\\\' are not both trimmed from the request filename (trimmed: %s)" % sorted(consts), e.loc,
               sample={"trimmed characters": sorted(chr(x) for x in consts)})
         s0 = e.args[0]
+    # "the configured directories": -rd / -sd are what Config says, whatever the flag order (shared with C17.a / C17.d)
+    from . import C17
+    x3 = rep.clause("C03.f", "the roots are the configured receive / send directories (shared with C17)")
+    import_clause(world, tier, x3, C17, "C17.a/server", ("directory", "-d", "-rd", "-sd"), "directory flags")
+    import_clause(world, tier, x3, C17, "C17.d", ("",), "fallback to -d exactly when not given")
     return rep
